@@ -578,6 +578,11 @@ fn program_cases(thorough: bool, rng: &mut Rng, f: &mut dyn FnMut(Case)) {
             ("x = [1, 2, 3, 4]\nx.retain |v|\n  x.clear()\n  true\nx", "list.retain"),
             ("x = [1, 2, 3, 4]\nx.retain |v|\n  x.push({a})\n  v != 2\nx", "list.retain"),
         ] {
+            // walking a range of ~2^63 elements never finishes (and since 256df45 it no longer fails
+            // fast with a capacity overflow): the huge ranges are not offered to consuming templates
+            if api.starts_with("iterator.") && matches!(a.expr, "(0..=9223372036854775807)" | "((-9223372036854775807 - 1)..9223372036854775807)") {
+                continue;
+            }
             let body = t.replace("{a}", a.expr);
             f(mk(&[a], body, vec![api.to_string()]));
         }
@@ -668,6 +673,9 @@ fn random_expr<'a>(rng: &mut Rng, all: &[&'a Item], depth: u32, used: &mut Vec<&
             let two = matches!(n, "get" | "skip" | "take" | "chunks" | "windows" | "expanded" | "step");
             if two {
                 format!("{}.{}({}, {})", m, n, random_expr(rng, all, depth - 1, used, apis), random_expr(rng, all, depth - 1, used, apis))
+            } else if matches!(n, "to_list" | "to_tuple" | "count") {
+                // consumers get a bounded prefix: a dynamically built range can have ~2^63 elements
+                format!("{}.{}(iterator.take({}, 1000))", m, n, random_expr(rng, all, depth - 1, used, apis))
             } else {
                 format!("{}.{}({})", m, n, random_expr(rng, all, depth - 1, used, apis))
             }
